@@ -94,13 +94,18 @@ class Contract:
     # definitional axioms naming a spec-level uninterpreted function (conservative extension): assumed at entry of the
     # function's own verification and at every call site
     self.defines = [Clause(c) for c in g("defines", [])]
+    # ghost parameters: extra universally quantified symbolic inputs (not real parameters); clauses that mention them
+    # go to ghost_requires / ghost_ensures and are never assumed by callers
+    self.ghost_params = dict(g("ghost_params", {}))
+    self.ghost_requires = [Clause(c) for c in g("ghost_requires", [])]
+    self.ghost_ensures = [Clause(c) for c in g("ghost_ensures", [])]
     ce = g("caller_ensures", None)   # what callers may assume, when it differs from ensures + defines
     self.caller_ensures = [Clause(c) for c in ce] if ce is not None else None
     self.bounded = g("bounded", None)
 
   def all_props(self):
     ps = set(self.props)
-    for c in self.requires + self.ensures:
+    for c in self.requires + self.ensures + self.ghost_ensures:
       if c.props:
         ps |= c.props
     for lc in self.loops.values():
